@@ -105,6 +105,10 @@ pub fn enabled<P: Proto>(w: &ClientWorld<P>, cfg: &Cfg) -> Vec<(CAct, u8)> {
                         for q in 0..3u8 {
                             for id in [1u16, 2] {
                                 v.push((CAct::B(inbound(q, if q == 0 { 0 } else { id }, 100 + q as u32 * 10 + id as u32)), 0));
+                                if q == 2 && id == 1 {
+                                    // the broker's re-delivery of a QoS 2 publish (DUP set): answered like the first
+                                    v.push((CAct::B(Pk::Publish { qos: 2, pkid: id, tag: 100 + q as u32 * 10 + id as u32, dup: true, retain: false, alias: None, topic_empty: false, topic2: false }), 1));
+                                }
                             }
                         }
                         if cfg.v5 {
